@@ -3,7 +3,7 @@
    [sub_dec] is the executable oracle used by the correspondence run against
    subtype / subtype_with_config / subtype_check_all / service_compatible / service_compatibility_report. *)
 From Coq Require Import List NArith.
-From CandidV Require Import model.Sub proofs.SubProofs.
+From CandidV Require Import model.Sub model.Memo proofs.SubProofs proofs.MemoProofs proofs.MemoInst.
 Open Scope N_scope.
 
 (* the oracle decides the co-inductive relation, for every environment and every pair of types (no bound) *)
@@ -35,6 +35,42 @@ Theorem C05_rule_monotone : forall E (S S' : pair -> bool) p,
   (forall q, S q = true -> S' q = true) -> stepb E S p = true -> stepb E S' p = true.
 Proof. exact stepb_mono. Qed.
 
+(* ---- the implementation's own algorithm (Memo.v mirrors subtype_ / equal_impl with gamma, trail and forget_since) ----
+   HISTORIES: whatever was asked before on the same gamma -- successful checks, failed checks, probes of the special
+   opt rule that failed half-way -- every answer along the history is the oracle's, and gamma only ever holds pairs of
+   the relation.  (answered = no call ran out of fuel [the stack guard, not modelled] or met an unbound name.) *)
+Theorem C05_memo_history : forall E f qs g,
+  sound_memo E g ->
+  let o := sub_history E false f g qs in
+  forallb answered (snd o) = true ->
+  Forall2 (fun q r => (r = MOk <-> sub_dec E (fst q) (snd q) = true)) qs (snd o) /\ sound_memo E (fst o).
+Proof. exact sub_history_correct. Qed.
+
+Theorem C05_memo_equal_history : forall E f qs g,
+  sound_eq_memo E g ->
+  let o := eq_history E f g qs in
+  forallb answered (snd o) = true ->
+  Forall2 (fun q r => (r = MOk <-> eq_dec E (fst q) (snd q) = true)) qs (snd o) /\ sound_eq_memo E (fst o).
+Proof. exact eq_history_correct. Qed.
+
+(* OptReport::Error only ever answers yes inside the relation (it is stricter by design) *)
+Theorem C05_memo_strict_sound : forall E f g a b,
+  sound_memo E g -> snd (query plan_sub E true f g a b) = MOk -> Sub E a b.
+Proof. exact sub_query_strict_sound. Qed.
+
+(* non-vacuity: the stale-memo history (a failed opt probe followed by the query it must not have poisoned) runs to its
+   end in the mirror and answers no / no / yes(opt rule) / no / no *)
+Example C05_ex_memo_history :
+  let E := [ ([78], TRec [(108, TVar [77]); (120, TPrim PNat)]); ([77], TRec [(110, TVar [78])]);
+             ([78;50], TRec [(108, TVar [77;50]); (120, TPrim PText)]); ([77;50], TRec [(110, TVar [78;50])]) ] in
+  snd (sub_history E false 200 []
+        [ (TRec [(112, TOpt (TVar [78])); (113, TVar [77])], TRec [(112, TOpt (TVar [78;50])); (113, TVar [77;50])]);
+          (TRec [(113, TVar [77])], TRec [(113, TVar [77;50])]);
+          (TOpt (TVar [78]), TOpt (TVar [78;50]));
+          (TVar [77], TVar [77;50]) ])
+  = [MErr; MErr; MOk; MErr].
+Proof. vm_compute. reflexivity. Qed.
+
 (* FULL STATEMENT (property text): forall E a b c, Sub E a b -> Sub E b c -> Sub E a c.
    It is FALSE of the specification's own rule set; the witness is replayed on the implementation
    (known finding, known_findings.txt): *)
@@ -62,3 +98,6 @@ Print Assumptions C05_eq_refl.
 Print Assumptions C05_closed_under_rules.
 Print Assumptions C05_rule_monotone.
 Print Assumptions C05_trans_refuted.
+Print Assumptions C05_memo_history.
+Print Assumptions C05_memo_equal_history.
+Print Assumptions C05_memo_strict_sound.
